@@ -111,3 +111,21 @@ func pickBase(r *rand.Rand) (string, bool) {
 	}
 	return b, true
 }
+
+// Interference: parsers with other configurations that are run on the same input BEFORE the
+// checked call, so that state leaking between parser values (package-level caches, memo
+// fields keyed too narrowly) becomes observable to monitors that only judge the default parser.
+var interferenceParsers = []url.Parser{
+	url.NewParser(url.WithLaxHostParsing()),
+	url.NewParser(url.WithLaxHostParsing(), url.WithAcceptInvalidCodepoints(), url.WithPercentEncodeSinglePercentSign(), url.WithCollapseConsecutiveSlashes()),
+	url.NewParser(url.WithSpecialSchemes(map[string]string{"foo": "1", "http": "80", "file": ""})),
+}
+
+func interfere(ctx *core.Ctx, inputs ...string) {
+	for _, p := range interferenceParsers {
+		for _, in := range inputs {
+			_ = ctx.Call(len(in)+64, func() { _, _ = p.Parse(in) })
+		}
+	}
+	ctx.Count("interference_passes")
+}
